@@ -314,6 +314,9 @@ def classify(case, r, profile, graphs):
         code = src_line(f, ln) if "/src/validator/" in f else ""
         if "/abnf_to_pest-" in f and schema and ".abnf" in schema:
             return "kf-c05-abnf-to-pest-panic"
+        if profile == "debug" and "assertion failed: self.map_entry_candidates.is_none()" in msg \
+                and "debug_assert!(self.map_entry_candidates.is_none())" in code and case["ep"] in ("J", "C", "V"):
+            return "kf-c05-map-entry-candidates-assert"
         return None
     if v in ("TIMEOUT", "HANG") and schema is not None:
         depth, still_open = nest_depth(schema)
